@@ -639,7 +639,7 @@ def m_list(eng, args, kwargs, anysym):
     if isinstance(x, Unzipped):
         return x.to_list(eng)
     if isinstance(x, SymSet):
-        return TaintedList(x.items)
+        return eng.arbitrary_order(x.items)
     if isinstance(x, Sym):
         raise Unsupported("list() of %r" % (x,))
     if isinstance(x, tuple) and x and x[0] == "enumerate":
